@@ -264,7 +264,7 @@ func (vc *VC) useChanCap() {
 }
 
 // useSpecFun declares a spec function (and, for transparent non-recursive ones, its definition)
-func (vc *VC) useSpecFun(name string) {
+func (vc *VC) useSpecFun0(name string) {
 	if vc.specUsed == nil {
 		vc.specUsed = map[string]bool{}
 	}
@@ -333,4 +333,27 @@ func (e *Env) unfoldEq(c *Call) string {
 	rhs, rt := n.tr(f.Body)
 	rhs = n.coerceNum(rhs, rt, vc.tyOfTypeExprL(f.Result, true))
 	return "(= " + lhs + " " + rhs + ")"
+}
+
+
+// useSpecFun declares a spec function and, once per VC, every axiom that mentions it (axioms are assumed facts about
+// uninterpreted functions - e.g. how fmt renders a particular format - and are listed in the trusted base)
+func (vc *VC) useSpecFun(name string) {
+	if vc.specUsed != nil && vc.specUsed[name] {
+		return
+	}
+	vc.useSpecFun0(name)
+	if vc.axUsed == nil {
+		vc.axUsed = map[string]bool{}
+	}
+	for _, a := range vc.P.axioms {
+		if vc.axUsed[a.Name] || !strings.Contains(a.E.String(), name+"(") {
+			continue
+		}
+		vc.axUsed[a.Name] = true
+		env := &Env{vc: vc, pure: true, st: &State{locals: map[*Cell]string{}, heaps: map[string]string{}, ghosts: map[string]string{}, alloc: "0"}}
+		g := env.trBool(a.E)
+		vc.specDecls = append(vc.specDecls, "(assert "+g+")")
+		vc.trusted["axiom "+a.Name+": "+a.E.String()] = true
+	}
 }
